@@ -93,9 +93,13 @@ class FakeDispatcher(YowConnectionDispatcher):
         self.connectionCallbacks.onConnecting()
         outcome = rig.connect_outcomes.pop(0) if rig.connect_outcomes else "ok"
         rig.log.append(("dispatcher.connect", outcome))
-        if outcome != "ok":
+        if outcome not in ("ok", "ok_then_close"):
             self.connectionCallbacks.onConnectionError(IOError("connection refused"))
             return
+        if outcome == "ok_then_close":
+            # the peer closes the connection the moment it is established: the close is what the loop finds first
+            self.inbox.put(("close",))
+            self.short_lived = True      # (what is written to it goes to a server connection of its own, which sees the close at once)
         self.up = True
         rig.current = self
         self.connectionCallbacks.onConnected()
@@ -136,6 +140,9 @@ class FakeDispatcher(YowConnectionDispatcher):
     def sendData(self, data):
         if not self.up:
             self.rig.writes_while_down.append(len(data))
+            return
+        if getattr(self, "short_lived", False):
+            self.writes.append(bytes(data))
             return
         if getattr(self.rig, "hold_writes", False):
             self.out_buffer += data
